@@ -250,6 +250,13 @@ func (a *Agent) Status() *model.Status {
 		// Match the status to the execution graph.
 		schedulerStatus = scheduler.StatusRunning
 	}
+	if schedulerStatus == scheduler.StatusSuccess && a.graph.FinishAt().IsZero() {
+		// No step is running at this instant and none has failed, but the
+		// run has not ended yet (steps or handlers are still to come): a
+		// status recorded now must not read "finished", or a run that is
+		// killed at this point would be reported as succeeded.
+		schedulerStatus = scheduler.StatusRunning
+	}
 
 	// Create the status object to record the current status.
 	status := &model.Status{
